@@ -304,6 +304,28 @@ def run_property(prop_id, tier, seed, replay=None):
         failed.append(struct_thm)
     if struct_thm in failed:
         notes.append("structure premise broken: " + structure_diff(prop_id))
+    # source-level theorems (about the MiniPy semantics of the regenerated terms), one module each, built separately
+    for module, thms in getattr(P, "extra_modules", {}).items():
+        all_theorems += thms
+        with Lock():
+            ok_x, x_out, x_dt = make(["theories/Props/%s.vo" % module])
+        make_dt += x_dt
+        if ok_x and not bad:
+            d3, f3, a3, _ = audit(prop_id, thms, module=module)
+            discharged += d3
+            failed += f3
+            axioms.update(a3)
+        else:
+            failed += thms
+            notes.append("Props/%s.v does not check against the regenerated source terms: %s" % (module, x_out[-1500:]))
+            try:
+                rep = json.load(open(os.path.join(COQ, "gen", "PyAst.report.json")))
+                pins = json.load(open(os.path.join(HERE, "pyast_pins.json")))
+                changed = sorted(q for q in rep if pins.get(q) != rep[q]["hash"])
+                notes.append("functions whose translated term differs from the pinned one: %s; untranslatable now: %s" % (
+                    changed, {q: r["reason"] for q, r in rep.items() if not r["ok"]}))
+            except Exception as e:
+                notes.append("no term diff available: %r" % (e,))
 
     # ---- correspondence ----
     rng = random.Random(seed)
